@@ -14,7 +14,8 @@ GROUP = "geometry"
 FILES = ["gen/Gen_geometry.v", "Model_density.v", "Proofs_geometry.v", "Proofs_density.v",
          "Model_poles_axes.v", "Proofs_poles_axes.v", "Entry_geometry.v", "Extract_geometry.v",
          # tie T for point_density (five kernels, g = 2, 3; n = 1, 2) and for poles on 2 / 3 orientations
-         "gen/Gen_density.v", "Inst_density.v", "Inst_density_kamb.v", "Inst_density_exp.v", "Inst_density_inv.v", "Inst_density_all.v"]
+         "gen/Gen_density.v", "Inst_density.v", "Inst_density_kamb.v", "Inst_density_exp.v", "Inst_density_inv.v", "Inst_density_all.v",
+         "Model_memo.v", "Proofs_memo.v", "Proofs_density_session.v"]
 PROP = "Properties/C20.v"
 AXES = ("xy", "xz", "yx", "yz", "zx", "zy")
 KERNELS = ("kamb_count", "schmidt_count", "exponential_kamb", "linear_inverse_kamb", "square_inverse_kamb")
